@@ -33,6 +33,10 @@ def check(run: Run) -> None:
     q = os_cls.methods.get("QMetaData")
     if q is None:
         raise AnalysisError("anchor vanished: ObjectStream.QMetaData")
+    from ..lib import view as _view_q
+
+    q0 = q
+    q = _view_q(m, q)  # the pending entries may be kept by a small private object, the steps made by private helpers
     fa = ctx.analysis(q)
     selfp = ("param", q.pos_params[0])
     mdp = ("param", q.pos_params[1])
@@ -40,7 +44,7 @@ def check(run: Run) -> None:
 
     # ---------------- R1 / R2: every store of _q_metadata in the package
     n_stores = 0
-    for fi in m.funcs.values():
+    for fi in [q if f_ is q0 else f_ for f_ in m.funcs.values()]:
         for n in own_nodes(fi):
             tgt = None
             val = None
